@@ -59,7 +59,8 @@ fn sbk_strategy(wide: bool) -> BoxedStrategy<SBk> {
 
 fn stripe_len(tier: Tier, cols: Cols) -> BoxedStrategy<usize> {
     match cols {
-        Cols::U1 | Cols::U2 | Cols::U4 => (0usize..=90).boxed(),
+        Cols::U1 | Cols::U2 | Cols::U4 | Cols::U7 | Cols::U8 => (0usize..=90).boxed(),
+        Cols::U48 | Cols::U64 => prop_oneof![3 => 0usize..=200, 1 => 200usize..=1500].boxed(),
         Cols::U16 => prop_oneof![3 => 0usize..=100, 1 => 100usize..=700].boxed(),
         Cols::U32 => {
             let hi = tier.pick(2200usize, 40000usize);
@@ -77,7 +78,7 @@ fn stripe_len(tier: Tier, cols: Cols) -> BoxedStrategy<usize> {
 }
 
 fn case_strategy(tier: Tier) -> BoxedStrategy<Case> {
-    (abc_strategy(), prop_oneof![1 => Just(Cols::U1), 1 => Just(Cols::U2), 1 => Just(Cols::U4), 2 => Just(Cols::U16), 8 => Just(Cols::U32)])
+    (abc_strategy(), prop_oneof![2 => Just(Cols::U1), 2 => Just(Cols::U2), 2 => Just(Cols::U4), 4 => Just(Cols::U16), 16 => Just(Cols::U32), 1 => Just(Cols::U7), 1 => Just(Cols::U8), 1 => Just(Cols::U48), 1 => Just(Cols::U64)])
         .prop_flat_map(move |(abc, cols)| {
             let k = abc.k();
             let wide = cols == Cols::U32;
@@ -285,6 +286,10 @@ fn run<A: Alphabet, C: PositiveLength, S: Striper<A, C>>(case: &Case) -> Verdict
         Cols::U2 => "C=2",
         Cols::U4 => "C=4",
         Cols::U16 => "C=16",
+        Cols::U7 => "C=7",
+        Cols::U8 => "C=8",
+        Cols::U48 => "C=48",
+        Cols::U64 => "C=64",
         Cols::U32 => "C=32",
     });
     info.class_if(case.abc == Abc::Protein, "protein");
@@ -368,6 +373,14 @@ impl Sub for History {
             (Abc::Protein, Cols::U4) => run::<Protein, U4, Narrow>(case),
             (Abc::Protein, Cols::U16) => run::<Protein, U16, Narrow>(case),
             (Abc::Protein, Cols::U32) => run::<Protein, U32, Wide>(case),
+            (Abc::Dna, Cols::U7) => run::<Dna, lightmotif::num::U7, Narrow>(case),
+            (Abc::Dna, Cols::U8) => run::<Dna, lightmotif::num::U8, Narrow>(case),
+            (Abc::Dna, Cols::U48) => run::<Dna, lightmotif::num::U48, Narrow>(case),
+            (Abc::Dna, Cols::U64) => run::<Dna, lightmotif::num::U64, Narrow>(case),
+            (Abc::Protein, Cols::U7) => run::<Protein, lightmotif::num::U7, Narrow>(case),
+            (Abc::Protein, Cols::U8) => run::<Protein, lightmotif::num::U8, Narrow>(case),
+            (Abc::Protein, Cols::U48) => run::<Protein, lightmotif::num::U48, Narrow>(case),
+            (Abc::Protein, Cols::U64) => run::<Protein, lightmotif::num::U64, Narrow>(case),
         }
     }
 }
